@@ -178,3 +178,22 @@ def finalize(m, tier):
                          'table_cells_kind_x_unit_pair': cells, 'prefixes_from': pf, 'prefixes_to': pt,
                          'exhaustive_over': 'the table kind x from-unit x to-unit x prefix x prefix (4800 cells); substance '
                                             'parameters and amounts are sampled'}}
+
+
+# --------------------------------------------------------------------------------------------------
+# directed edge workloads shared between several checks (pv/edges.py)
+
+_plan_without_edges, _run_job_without_edges = plan, run_job
+
+
+def plan(tier, seed):
+    from .common import edges_jobs
+    return _plan_without_edges(tier, seed) + edges_jobs(tier)
+
+
+def run_job(job):
+    if job['kind'] == 'edges':
+        from pv.edges import edges
+        from .common import run_cases
+        return run_cases(job, edges)
+    return _run_job_without_edges(job)
